@@ -254,10 +254,17 @@ fn c_or(mut items: Vec<C>) -> C {
         // `x OR <every line>` is every line
         return C::True;
     }
-    if items.len() == 1 {
-        items.pop().unwrap()
+    let mut flat = vec![];
+    for i in items.drain(..) {
+        match i {
+            C::Or(v) => flat.extend(v),
+            o => flat.push(o),
+        }
+    }
+    if flat.len() == 1 {
+        flat.pop().unwrap()
     } else {
-        C::Or(items)
+        C::Or(flat)
     }
 }
 
@@ -387,8 +394,14 @@ fn gen_tree(r: &mut Rng, depth: usize, star_ok: bool) -> T {
         return gen_kw(r, star_ok);
     }
     match r.below(10) {
-        0..=3 => T::And(vec![gen_tree(r, depth - 1, star_ok), gen_tree(r, depth - 1, star_ok)]),
-        4..=6 => T::Or(vec![gen_tree(r, depth - 1, star_ok), gen_tree(r, depth - 1, star_ok)]),
+        0..=3 => {
+            let n = if r.chance(20) { 3 } else { 2 };
+            T::And((0..n).map(|_| gen_tree(r, depth - 1, star_ok)).collect())
+        }
+        4..=6 => {
+            let n = if r.chance(20) { 3 } else { 2 };
+            T::Or((0..n).map(|_| gen_tree(r, depth - 1, star_ok)).collect())
+        }
         _ => T::Not(Box::new(gen_tree(r, depth - 1, star_ok))),
     }
 }
@@ -436,55 +449,94 @@ fn sp(r: &mut Rng) -> &'static str {
     }
 }
 
-/// an operand: a keyword, `NOT operand`, or a parenthesised binary node
-fn render_operand(r: &mut Rng, t: &T) -> String {
+fn paren(r: &mut Rng, body: String) -> String {
+    // blanks are allowed inside the parentheses
+    match r.below(8) {
+        0 => format!("( {} )", body),
+        1 => format!("({} )", body),
+        2 => format!("(\t{})", body),
+        _ => format!("({})", body),
+    }
+}
+
+/// Render `t` where the grammar expects level `need`: 0 = an OR chain may stand bare, 1 = an AND
+/// chain may stand bare, 2 = only a keyword, `NOT x` or a parenthesised expression.
+/// `loose`: leave out every pair of parentheses the precedence NOT > AND > OR makes redundant;
+/// otherwise every AND / OR node below the top is parenthesised.
+fn render(r: &mut Rng, t: &T, need: usize, loose: bool) -> String {
     match t {
         T::Kw { src, .. } => {
             if r.chance(8) {
-                format!("({})", src)
+                paren(r, src.clone())
             } else {
                 src.clone()
             }
         }
         T::Not(x) => {
-            let inner = format!("NOT{}{}", sp(r), render_operand(r, x));
-            if r.chance(50) {
-                format!("({})", inner)
+            let inner = format!("NOT{}{}", sp(r), render(r, x, 2, loose));
+            if r.chance(if loose { 15 } else { 50 }) {
+                paren(r, inner)
             } else {
                 inner
             }
         }
-        T::And(v) => format!("({}{}AND{}{})", render_operand(r, &v[0]), sp(r), sp(r), render_operand(r, &v[1])),
-        T::Or(v) => format!("({}{}OR{}{})", render_operand(r, &v[0]), sp(r), sp(r), render_operand(r, &v[1])),
+        T::And(v) => {
+            let child = if loose { 1 } else { 2 };
+            let mut body = String::new();
+            for (i, x) in v.iter().enumerate() {
+                if i > 0 {
+                    body.push_str(sp(r));
+                    body.push_str("AND");
+                    body.push_str(sp(r));
+                }
+                body.push_str(&render(r, x, child, loose));
+            }
+            if need <= 1 {
+                body
+            } else {
+                paren(r, body)
+            }
+        }
+        T::Or(v) => {
+            let child = if loose { 0 } else { 2 };
+            let mut body = String::new();
+            for (i, x) in v.iter().enumerate() {
+                if i > 0 {
+                    body.push_str(sp(r));
+                    body.push_str("OR");
+                    body.push_str(sp(r));
+                }
+                body.push_str(&render(r, x, child, loose));
+            }
+            if need == 0 {
+                body
+            } else {
+                paren(r, body)
+            }
+        }
     }
 }
 
-/// top level: a binary node may go without its parentheses
-fn render_top(r: &mut Rng, t: &T) -> String {
-    match t {
-        T::And(v) if v.len() == 2 && r.chance(50) => format!("{}{}AND{}{}", render_operand(r, &v[0]), sp(r), sp(r), render_operand(r, &v[1])),
-        T::Or(v) if v.len() == 2 && r.chance(50) => format!("{}{}OR{}{}", render_operand(r, &v[0]), sp(r), sp(r), render_operand(r, &v[1])),
-        o => render_operand(r, o),
-    }
-}
-
-/// documented, fully parenthesised filter: (intended tree, query text)
-fn gen_filter(r: &mut Rng) -> (T, String) {
+/// filter in documented form: (intended tree, query text, loose?)
+fn gen_filter(r: &mut Rng) -> (T, String, bool) {
     if r.chance(4) {
-        return (T::Kw { kind: Kind::Wild, text: "*".into(), src: "*".into() }, "*".to_string());
+        return (T::Kw { kind: Kind::Wild, text: "*".into(), src: "*".into() }, "*".to_string(), false);
     }
     let star_ok = r.chance(12);
+    let loose = r.chance(35);
     let depth = r.below(5);
     if r.chance(30) {
         // juxtaposition of 2..3 terms at the top level
         let n = 2 + r.below(2);
         let terms: Vec<T> = (0..n).map(|_| gen_tree(r, depth.min(2), star_ok)).collect();
-        let q = terms.iter().map(|t| render_operand(r, t)).collect::<Vec<_>>().join(sp(r));
-        (T::And(terms), q)
+        let q = terms.iter().map(|t| render(r, t, 2, loose)).collect::<Vec<_>>().join(sp(r));
+        (T::And(terms), q, loose)
     } else {
         let t = gen_tree(r, depth, star_ok);
-        let q = render_top(r, &t);
-        (t, q)
+        // the top-level node may go without its parentheses
+        let need = if loose || r.chance(50) { 0 } else { 2 };
+        let q = render(r, &t, need, loose);
+        (t, q, loose)
     }
 }
 
@@ -737,11 +789,11 @@ fn selection_checks(ctx: &mut Ctx, ps: &mut Passes, fam_prefix: &str, query: &st
 fn e2e_case(ctx: &mut Ctx, ps: &mut Passes, chain: bool) {
     let mut r = ctx.rng.fork();
     let fam = if chain { "filter-chain" } else { "filter-e2e" };
-    let (intended, query) = if chain {
-        (None, gen_chain(&mut r, 2))
+    let (intended, query, loose) = if chain {
+        (None, gen_chain(&mut r, 2), false)
     } else {
-        let (t, q) = gen_filter(&mut r);
-        (Some(canon_t(&t)), q)
+        let (t, q, loose) = gen_filter(&mut r);
+        (Some(canon_t(&t)), q, loose)
     };
     // the implementation's own reading of the query
     let parsed = match imp::parse(&query) {
@@ -796,7 +848,7 @@ fn e2e_case(ctx: &mut Ctx, ps: &mut Passes, chain: bool) {
                 let differs = inp.lines.iter().flatten().any(|l| sem(want, l) != sem(got, l));
                 // `*` as an operand of OR / NOT is dropped by the parser (`a OR *` = `a`, `NOT *` = every line)
                 let star = has_star_operand(&query);
-                ctx.case(ast_fam, &key, "viol", json!({"class": if star { "C02/star-operand-dropped" } else { "C02/filter-grammar-differs-from-documented" },
+                ctx.case(ast_fam, &key, "viol", json!({"class": if star { "C02/star-operand-dropped" } else if loose { "C02/filter-precedence-differs" } else { "C02/filter-grammar-differs-from-documented" }, "parentheses": if loose { "only where the precedence needs them" } else { "around every AND / OR" },
                     "what": if star { "a `*` operand inside OR / NOT is dropped instead of standing for every line (`a OR *` selects only lines with a, `NOT *` selects every line)" }
                         else { "the parser reads the filter differently from the documented grammar (NOT > AND > OR, juxtaposition = AND, `*` = every line)" },
                     "query": query, "intended": show(want), "parsed": show(got), "selection_differs_on_this_input": differs, "input": String::from_utf8_lossy(&inp.bytes)}));
@@ -831,8 +883,33 @@ fn e2e_case(ctx: &mut Ctx, ps: &mut Passes, chain: bool) {
     selection_checks(ctx, ps, pfx, &query, &inp, &tree, &legacy, cs);
 }
 
+/// fixed witnesses of the finding C02/star-operand-dropped (a `*`-only operand of OR / NOT stands
+/// for every line): replayed on every run so that the finding does not depend on the seed
+fn star_witnesses(ctx: &mut Ctx) {
+    let input = b"a\nb\n";
+    let cases: [(&str, &[&str]); 4] =
+        [("a OR *", &["a", "b"]), ("NOT *", &[]), ("NOT (a OR **)", &[]), ("a AND *", &["a"])];
+    for (q, want) in cases {
+        let run = imp::run(q, input, "legacy", 10);
+        let text = String::from_utf8_lossy(&run.stdout).into_owned();
+        let got: Vec<&str> = text.lines().collect();
+        let info = json!({"class": "C02/star-operand-dropped", "query": q, "input": "a\nb\n", "expected": want, "printed": got,
+            "what": "a `*` operand inside OR / NOT is dropped instead of standing for every line"});
+        if !run.compiled || run.panicked.is_some() || run.hung {
+            ctx.case("filter-star-witness", q, "viol", json!({"class": "C02/crash", "query": q, "what": "witness query rejected, panicked or hung"}));
+        } else if got != want.to_vec() {
+            ctx.case("filter-star-witness", q, "viol", info);
+        } else {
+            ctx.case("filter-star-witness", q, "pass", info);
+        }
+    }
+}
+
 pub fn check(ctx: &mut Ctx) {
     let mut ps = Passes::new();
+    if ctx.shard == 0 {
+        star_witnesses(ctx);
+    }
     kw_stream(ctx, &mut ps);
     let n = ctx.budget(1200, 60000);
     for _ in 0..n {
